@@ -12,5 +12,8 @@ for f in $T/*; do
   if ! tail -n 1 $f | grep -q '^exit=0'; then bad=1; echo "== $(basename $f)"; tail -n 6 $f; fi
 done
 rm -rf $T
+# the tooling's own invariants: every name in cfsa/ and tools/ resolves; no inverse refactoring fires on today's tree
+/venv/bin/python tools/selflint.py > /dev/null 2>&1 || { bad=1; echo "== selflint"; /venv/bin/python tools/selflint.py 2>&1 | tail -n 6; }
+/venv/bin/python tools/normaliser_identity.py > /dev/null 2>&1 || { bad=1; echo "== normaliser identity"; /venv/bin/python tools/normaliser_identity.py 2>&1 | tail -n 6; }
 [ $bad = 0 ] && echo "all checks OK"
 exit $bad
